@@ -35,7 +35,7 @@ fn run_event(out: &mut Out, t: &Tree, meth: &str, preset: &str, k: usize, budget
     let t2 = t.clone();
     let meth2 = meth.to_string();
     let res = util::catch(move || {
-        let game = tree::build(&t2).map_err(|e| format!("{e:?}"))?;
+        let game = tree::build(&cfr::unlabelled(&t2)).map_err(|e| format!("{e:?}"))?;
         verif::reset();
         // seed u64::MAX = live randomness: the production samplers draw (nothing pinned)
         if seed != u64::MAX {
